@@ -105,3 +105,43 @@ contract(f"{Q}.compare",
 
 contract(f"{Q}.magnitude", params={"self": "Ref[PlainQuantity]"}, returns="Num", pure=True,
          ensures={"def": "result == self._magnitude"}, modifies=[], props=["C05", "C03"])
+
+# ---- hashing goes through base units (of the current default system)
+specfn("BaseFac", ["SetV[Str]", "Arr[Str,Num]"], "Num")       # factor from the units to the system's base units
+specfn("BaseKeys", ["SetV[Str]", "Arr[Str,Num]"], "SetV[Str]")
+specfn("BaseVals", ["SetV[Str]", "Arr[Str,Num]"], "Arr[Str,Num]")
+predicate("is_dimless", ["q: Ref[PlainQuantity]"], "forall[Str](lambda b: implies(b != '[]', DimOf(b, q._units) == 0))")
+
+contract(f"{Q}.to_base_units",
+         params={"self": "Ref[PlainQuantity]"}, returns="Ref[PlainQuantity]",
+         requires={"q": "QWF(self)"},
+         ensures={"fresh": "fresh(result) and same_class(result, self)", "registry": "result._REGISTRY == self._REGISTRY",
+                  "magnitude": "result._magnitude == self._magnitude * BaseFac(keys(self._units._d), vals(view(self._units)))",
+                  "units": "keys(result._units._d) == BaseKeys(keys(self._units._d), vals(view(self._units))) and "
+                           "vals(view(result._units)) == BaseVals(keys(self._units._d), vals(view(self._units)))",
+                  "same_dim": "SameDim(result, self)", "q": "QWF(self) and QWF(result)", "hashes": "HashesKept()"},
+         modifies=["contents(self._REGISTRY._cache.dimensionality)", "contents(self._REGISTRY._cache.root_units)",
+                   "contents(self._REGISTRY._cache.conversion_factor)", "allof(UnitsContainer._hash)"],
+         trusted=True,
+         note="_get_base_units of the default system (C14) + conversion (C02); BaseFac / BaseKeys / BaseVals name its result",
+         props=["C05", "C14"])
+
+contract(f"{Q}.units", params={"self": "Ref[PlainQuantity]"}, returns="Ref[PlainUnit]",
+         requires={"q": "QWF(self)"},
+         ensures={"fresh": "fresh(result)", "same_units": "result._units == self._units", "u": "UWF(result)"},
+         modifies=[], trusted=True, note="self._REGISTRY.Unit(self._units)", props=["C05"])
+
+contract(f"{Q}.__hash__",
+         params={"self": "Ref[PlainQuantity]"}, returns="Int",
+         requires={"q": "QWF(self)"},
+         ensures={
+             # equal quantities are converted to the same base magnitude and base units before hashing, so they hash equal
+             "hash_of_base_form": "result == (hash_num(self._magnitude * BaseFac(keys(self._units._d), vals(view(self._units)))) "
+                                  "if is_dimless(self) else "
+                                  "hash_tuple3(self, self._magnitude * BaseFac(keys(self._units._d), vals(view(self._units))), "
+                                  "hash_items_kv(BaseKeys(keys(self._units._d), vals(view(self._units))), "
+                                  "BaseVals(keys(self._units._d), vals(view(self._units))))))",
+         },
+         modifies=["contents(self._REGISTRY._cache.dimensionality)", "contents(self._REGISTRY._cache.root_units)",
+                   "contents(self._REGISTRY._cache.conversion_factor)", "allof(UnitsContainer._hash)", "self._dimensionality"],
+         props=["C05"])
